@@ -16,4 +16,5 @@ INVARIANT Twins
 INVARIANT OwnFractionOnly
 INVARIANT FPathLen
 PROPERTY AppendOnly
+PROPERTY RefinesLaws
 CHECK_DEADLOCK FALSE
